@@ -245,7 +245,7 @@ def is_ascii(s: str) -> bool:
 
 
 def run_coq_cases(scratch: str, header: str, case_terms: list[str], case_type: str, mismatch_fn: str,
-                  shard=300, show_fn: str | None = None, jobs=16, timeout=1800):
+                  shard=300, show_fn: str | None = None, jobs=16, timeout=600):
     """Evaluate `mismatch_fn : <case_type> -> bool` on every case inside Coq.
 
     Returns (list of mismatching indices, dict index -> model's own output string, log)."""
